@@ -35,6 +35,17 @@ Proof. unfold basis_hermitian_b. rewrite allb_spec. intros H a Ha i j Hi Hj. spe
 Lemma basis_0th_b_ok d sd B : basis_0th_b d sd B = true -> basis_0th_identity d sd B.
 Proof. unfold basis_0th_b. rewrite allb_spec. intros H i j Hi Hj. specialize (H i Hi). rewrite allb_spec in H.
   now apply ceqb_spec, H. Qed.
+Definition basis_complete_b (d : nat) (B : nat -> cmat) : bool :=
+  allb d (fun i => allb d (fun j => allb d (fun k => allb d (fun l =>
+    ceqb (sumn (d * d) (fun a => cmul Cx (zconj (B a i j)) (B a k l))) (if Nat.eqb i k && Nat.eqb j l then c1 Cx else c0 Cx))))).
+Lemma basis_complete_b_ok d B : basis_complete_b d B = true -> basis_complete d B.
+Proof. unfold basis_complete_b. rewrite allb_spec. intros H i j k l Hi Hj Hk Hl.
+  specialize (H i Hi). rewrite allb_spec in H. specialize (H j Hj). rewrite allb_spec in H.
+  specialize (H k Hk). rewrite allb_spec in H. now apply ceqb_spec, H. Qed.
+Definition hermitian_b (k : nat) (A : cmat) : bool := allb k (fun i => allb k (fun j => ceqb (A i j) (zconj (A j i)))).
+Lemma hermitian_b_ok k A : hermitian_b k A = true -> hermitian k A.
+Proof. unfold hermitian_b. rewrite allb_spec. intros H i j Hi Hj. specialize (H i Hi). rewrite allb_spec in H.
+  now apply ceqb_spec, H. Qed.
 End Checkers.
 
 (* ---------------------------------------------------------------- the 2-qubit normalised Pauli basis over Qc *)
@@ -63,6 +74,9 @@ Proof. apply basis_0th_b_ok. vm_compute. reflexivity. Qed.
 Lemma pauli2_sd : cmul Qc_OF (qz 2) (qz 2) = @ofnat Qc_OF 4.
 Proof. apply Qc_is_canon. vm_compute. reflexivity. Qed.
 
+Lemma pauli2_complete : basis_complete 4 pauli2.
+Proof. apply basis_complete_b_ok. vm_compute. reflexivity. Qed.
+
 (* the witness generator: single jump operator B_1 = (I (x) X)/2 with unit rate, i.e. K = E_00, H = 0, J = J(K) = -I/8 = -1/4 B_0 *)
 Definition w_hv : rvec Qc_OF := fun _ => 0%Qc.
 Definition w_jv : rvec Qc_OF := fun a => if Nat.eqb a 0 then Q2Qc (-1 # 4) else 0%Qc.
@@ -75,16 +89,33 @@ Proof. intros E. apply (f_equal this) in E. vm_compute in E. discriminate. Qed.
 Lemma w_J_is_J_of_K : meq 4 4 (op_of_vec 4 pauli2 w_jv) (j_of_k 4 pauli2 w_K).
 Proof. apply meqb_spec. vm_compute. reflexivity. Qed.
 
-Lemma calc_j_mat_witness :
-  ~ meq 4 4 (calc_j_mat_code 4 pauli2 w_L) (op_of_vec 4 pauli2 w_jv) /\ ~ meq 16 16 (rebuild_cb false 4 pauli2 w_L) w_L.
-Proof. assert (Hd : (0 < 4)%nat) by lia. split.
-  - apply (j_code_wrong Qc_OF 4 Hd pauli2 (qz 2) pauli2_orthonormal pauli2_hermitian pauli2_0th pauli2_sd w_hv w_jv w_K w_jv0).
-  - apply (rebuild_code_wrong Qc_OF 4 Hd pauli2 (qz 2) pauli2_orthonormal pauli2_hermitian pauli2_0th pauli2_sd w_hv w_jv w_K w_jv0). Qed.
+Definition w_H : cmat Qc_OF := fun i j =>
+  match i, j with 0%nat, 1%nat => cq 1 2 | 1%nat, 0%nat => cq 1 (-2) | 2%nat, 2%nat => cq 3 0 | _, _ => cq 0 0 end.
+Lemma w_H_herm : hermitian 4 w_H.
+Proof. apply hermitian_b_ok. vm_compute. reflexivity. Qed.
+Lemma w_K_herm : hermitian (4 * 4 - 1) w_K.
+Proof. apply hermitian_b_ok. vm_compute. reflexivity. Qed.
 
-(* ---------------------------------------------------------------- jump operators: c = |0><1| on one qubit, rho = |1><1| *)
+(* calc_j_mat AS CODED BEFORE FIX c18-calc-j-mat-identity-component on the witness *)
+Lemma calc_j_mat_witness :
+  ~ meq 4 4 (calc_j_mat_prefix 4 pauli2 w_L) (op_of_vec 4 pauli2 w_jv) /\ ~ meq 16 16 (rebuild_cb_prefix 4 pauli2 w_L) w_L.
+Proof. assert (Hd : (0 < 4)%nat) by lia. split.
+  - apply (j_prefix_wrong Qc_OF 4 Hd pauli2 (qz 2) pauli2_orthonormal pauli2_hermitian pauli2_0th pauli2_sd w_hv w_jv w_K w_jv0).
+  - apply (rebuild_prefix_wrong Qc_OF 4 Hd pauli2 (qz 2) pauli2_orthonormal pauli2_hermitian pauli2_0th pauli2_sd w_hv w_jv w_K w_jv0). Qed.
+
+(* ---------------------------------------------------------------- jump operators AS CODED BEFORE FIX c18-jump-operators-cdagger-c:
+   c = |0><1| on one qubit, rho = |1><1| *)
 Definition w_c : cmat Qc_OF := fun i j => match i, j with 0%nat, 1%nat => cq 1 0 | _, _ => cq 0 0 end.
 Definition w_rho : cmat Qc_OF := fun i j => match i, j with 1%nat, 1%nat => cq 1 0 | _, _ => cq 0 0 end.
-Lemma jump_code_witness :
-  apply_cb 2 (jump_d_code 2 [w_c]) w_rho 1%nat 1%nat <> gksl_jump 2 [w_c] w_rho 1%nat 1%nat
-  /\ mtrace 2 (apply_cb 2 (jump_d_code 2 [w_c]) w_rho) <> c0 Qx.
+Lemma jump_prefix_witness :
+  apply_cb 2 (jump_d_prefix 2 [w_c]) w_rho 1%nat 1%nat <> gksl_jump 2 [w_c] w_rho 1%nat 1%nat
+  /\ mtrace 2 (apply_cb 2 (jump_d_prefix 2 [w_c]) w_rho) <> c0 Qx.
 Proof. split; intros E; apply (f_equal (fun z : Qx => this (fst z))) in E; vm_compute in E; discriminate. Qed.
+
+(* ---------------------------------------------------------------- equality projection on a concrete non-TP matrix *)
+Definition w_X : rmat Qc_OF := fun i j => qz (Z.of_nat (i + 2 * j + 1)%nat).
+Lemma proj_eq_example : ~ row0_zero Qc_OF 2 w_X /\ row0_zero Qc_OF 2 (proj_eq w_X) /\ proj_eq w_X 1%nat 1%nat = qz 4.
+Proof. split; [|split].
+  - intros H. specialize (H 0%nat (Nat.lt_0_succ 1)). apply (f_equal this) in H. vm_compute in H. discriminate.
+  - intros j _. reflexivity.
+  - apply Qc_is_canon. vm_compute. reflexivity. Qed.
